@@ -27,10 +27,13 @@ Definition dms_tuple (letters : ascii * ascii) (t : dms) : Z * Z * Z * ascii :=
 
 Lemma geq_to_dms_convert : forall dd,
   g_to_dms_convert dd = (dg (to_dms_axis dd), mn (to_dms_axis dd), s5 (to_dms_axis dd)).
-Proof. reflexivity. Qed.
+Proof. intros. cbv [g_to_dms_convert divmod_q divmod_z to_dms_axis dms_of_x dg mn s5]. reflexivity. Qed.
 
 Lemma geq_to_dms : forall c, g_to_dms c = (dms_tuple EW (fst (to_dms c)), dms_tuple NS (snd (to_dms c))).
-Proof. reflexivity. Qed.
+Proof.
+  intros. unfold g_to_dms. rewrite !geq_to_dms_convert.
+  cbv [to_dms dms_tuple fst snd EW NS to_dms_axis dms_of_x dg mn s5 pos]. reflexivity.
+Qed.
 
 (* ------------------------------------------------------------------ zero_pad *)
 Definition nodot (s : string) : Prop := str_remove "." s = s.
@@ -89,19 +92,39 @@ Proof.
 Qed.
 
 (* ------------------------------------------------------------------ to_qdms *)
+(* one axis: f'{t[3]}{"".join([zero_pad(abs(t[0]), w), zero_pad(t[1], 2), zero_pad(round_half_up(t[2], 2), 4)])}' *)
+Lemma geq_to_qdms_lon_axis : forall t,
+  (String (snd (dms_tuple EW t)) EmptyString ++
+   String.concat "" [g_to_qdms_zero_pad_int (Z.abs (fst (fst (fst (dms_tuple EW t))))) 3;
+                     g_to_qdms_zero_pad_int (snd (fst (fst (dms_tuple EW t)))) 2;
+                     g_to_qdms_zero_pad_float (rhu_k (dec_q 5 (snd (fst (dms_tuple EW t)))) 2) 4])%string
+  = qdms_axis 3 EW t.
+Proof.
+  intros.
+  rewrite (geq_to_qdms_zero_pad_int _ 3%nat : g_to_qdms_zero_pad_int _ 3 = _).
+  rewrite (geq_to_qdms_zero_pad_int _ 2%nat : g_to_qdms_zero_pad_int _ 2 = _).
+  rewrite (geq_to_qdms_zero_pad_float _ 4%nat : g_to_qdms_zero_pad_float _ 4 = _).
+  reflexivity.
+Qed.
+
+Lemma geq_to_qdms_lat_axis : forall t,
+  (String (snd (dms_tuple NS t)) EmptyString ++
+   String.concat "" [g_to_qdms_zero_pad_int (Z.abs (fst (fst (fst (dms_tuple NS t))))) 2;
+                     g_to_qdms_zero_pad_int (snd (fst (fst (dms_tuple NS t)))) 2;
+                     g_to_qdms_zero_pad_float (rhu_k (dec_q 5 (snd (fst (dms_tuple NS t)))) 2) 4])%string
+  = qdms_axis 2 NS t.
+Proof.
+  intros.
+  rewrite !(geq_to_qdms_zero_pad_int _ 2%nat : g_to_qdms_zero_pad_int _ 2 = _).
+  rewrite (geq_to_qdms_zero_pad_float _ 4%nat : g_to_qdms_zero_pad_float _ 4 = _).
+  reflexivity.
+Qed.
+
 Lemma geq_to_qdms : forall c reverse, g_to_qdms c reverse = to_qdms c reverse.
 Proof.
-  intros. unfold g_to_qdms. rewrite geq_to_dms. unfold to_qdms, to_dms.
-  cbn [fst snd dms_tuple].
-  assert (forall n, g_to_qdms_zero_pad_int n 3 = pad 3 (digits n)) as I3
-    by (intros; apply (geq_to_qdms_zero_pad_int n 3%nat)).
-  assert (forall n, g_to_qdms_zero_pad_int n 2 = pad 2 (digits n)) as I2
-    by (intros; apply (geq_to_qdms_zero_pad_int n 2%nat)).
-  assert (forall h, g_to_qdms_zero_pad_float h 4 = pad 4 (str2_nodot h)) as F4
-    by (intros; apply (geq_to_qdms_zero_pad_float h 4%nat)).
-  rewrite !I3, !I2, !F4.
-  unfold qdms_axis, qdms_axis_with, hund, dec_q. cbn [String.concat append].
-  destruct reverse; reflexivity.
+  intros. unfold g_to_qdms. rewrite geq_to_dms. cbv beta iota zeta.
+  rewrite geq_to_qdms_lon_axis, geq_to_qdms_lat_axis.
+  unfold to_qdms, to_dms. cbn [fst snd]. destruct reverse; reflexivity.
 Qed.
 
 (* ------------------------------------------------------------------ from_dms *)
@@ -171,19 +194,43 @@ Proof.
   destruct s as [|c1 [|c2 [|c3 [|c4 [|c5 s]]]]]; try discriminate Hl.
   cbn [substring String.length Nat.sub] in *.
   unfold g_from_qdms_convert. rewrite (float_of_digits _ _ Hd), (float_of_digits _ _ Hm).
-  cbn [append].
-  rewrite (float_of_dotted (String c1 (String c2 "")) (String c3 (String c4 "")) ss hh Hs Hh).
+  cbn [substring String.length Nat.sub append].
+  pose proof (float_of_dotted (String c1 (String c2 "")) (String c3 (String c4 "")) ss hh Hs Hh) as F.
+  cbn [append] in F. rewrite F.
   cbv zeta. destruct (Ascii.eqb q "W" || Ascii.eqb q "S")%bool; reflexivity.
+Qed.
+
+Lemma substring_full : forall t, substring 0 (String.length t) t = t.
+Proof. induction t as [|c t IH]; cbn [String.length substring]; [|rewrite IH]; reflexivity. Qed.
+
+(* text[k:][n:n+m] = text[k+n:k+n+m] *)
+Lemma substring_tail : forall str n m k,
+  substring n m (substring k (String.length str - k) str) = substring (k + n) m str.
+Proof.
+  induction str as [|c s IH]; intros n m k.
+  - destruct k, n, m; reflexivity.
+  - destruct k as [|k].
+    + rewrite Nat.sub_0_r, substring_full. reflexivity.
+    + cbn [String.length Nat.sub Nat.add substring]. apply IH.
+Qed.
+
+Lemma substring_tail_length : forall k t, (k <= String.length t)%nat ->
+  String.length (substring k (String.length t - k) t) = (String.length t - k)%nat.
+Proof.
+  induction k as [|k IH]; intros t Hk.
+  - rewrite Nat.sub_0_r, substring_full. reflexivity.
+  - destruct t as [|c t']; cbn [String.length] in Hk; [lia|].
+    cbn [String.length Nat.sub substring]. apply IH. lia.
 Qed.
 
 (* one axis: on every text for which the model's qdms_value is defined, the code's slicing
    (str[0], str[1:1+w], the next two characters, the rest) and convert give the model's value *)
-Lemma from_qdms_axis : forall (w : nat) str a, (w = 3 \/ w = 2)%nat -> qdms_value w str = Some a ->
+Lemma from_qdms_axis : forall (w : nat) str a, qdms_value w str = Some a ->
   exists q, String.get 0 str = Some q /\
     g_from_qdms_convert q (substring 1 w str) (substring (1 + w) 2 str)
                           (substring (3 + w) (String.length str - (3 + w)) str) = Some a.
 Proof.
-  intros w str a Hw H. unfold qdms_value in H.
+  intros w str a H. unfold qdms_value in H.
   destruct (String.length str =? S (w + 6))%nat eqn:L; cbn [negb] in H; [|discriminate].
   apply Nat.eqb_eq in L.
   destruct (String.get 0 str) as [q|]; [|discriminate]. exists q. split; [reflexivity|].
@@ -192,23 +239,10 @@ Proof.
   destruct (parse_nat (substring (3 + w) 2 str)) as [ss|] eqn:Hs; [|discriminate].
   destruct (parse_nat (substring (5 + w) 2 str)) as [hh|] eqn:Hh; [|discriminate].
   injection H as <-.
-  assert (forall n m k, substring n m (substring k (String.length str - k) str) = substring (k + n) m str) as Sub.
-  { clear. intros n m k. revert k. induction str as [|c s IH]; intros k.
-    - destruct k, n, m; reflexivity.
-    - destruct k as [|k]; [cbn [String.length Nat.sub Nat.add]|].
-      + assert (forall t, substring 0 (String.length t) t = t) as Full
-          by (induction t as [|c' t' IHt]; cbn; [|rewrite IHt]; reflexivity).
-        rewrite Full. reflexivity.
-      + cbn [String.length Nat.sub Nat.add substring]. apply IH. }
   apply geq_from_qdms_convert; try assumption.
-  - clear -L. assert (forall k t, (k <= String.length t)%nat ->
-                      String.length (substring k (String.length t - k) t) = (String.length t - k)%nat) as Len.
-    { induction k as [|k IH]; intros t Hk.
-      - rewrite Nat.sub_0_r. induction t as [|c t' IHt]; cbn; [|rewrite IHt]; reflexivity.
-      - destruct t as [|c t']; cbn in Hk; [lia|]. cbn [String.length Nat.sub substring]. apply IH. lia. }
-    rewrite Len; lia.
-  - rewrite Sub. rewrite Nat.add_0_r. exact Hs.
-  - rewrite Sub. replace (3 + w + 2)%nat with (5 + w)%nat by lia. exact Hh.
+  - rewrite substring_tail_length; lia.
+  - rewrite substring_tail, Nat.add_0_r. exact Hs.
+  - rewrite substring_tail. replace (3 + w + 2)%nat with (5 + w)%nat by lia. exact Hh.
 Qed.
 
 Lemma geq_from_qdms : forall slon slat r, from_qdms slon slat = Some r -> g_from_qdms slon slat = Some r.
@@ -217,8 +251,8 @@ Proof.
   destruct (qdms_value 3 slon) as [a|] eqn:Ha; [|discriminate].
   destruct (qdms_value 2 slat) as [b|] eqn:Hb; [|discriminate].
   injection H as <-.
-  destruct (from_qdms_axis 3 slon a (or_introl eq_refl) Ha) as [q1 [G1 C1]].
-  destruct (from_qdms_axis 2 slat b (or_intror eq_refl) Hb) as [q2 [G2 C2]].
+  destruct (from_qdms_axis 3 slon a Ha) as [q1 [G1 C1]].
+  destruct (from_qdms_axis 2 slat b Hb) as [q2 [G2 C2]].
   unfold g_from_qdms. cbn [fst snd Nat.add] in *. rewrite G1, C1, G2, C2. reflexivity.
 Qed.
 
